@@ -53,6 +53,8 @@ COMPOSED_OF = {
     'C12': ('C13',),                                         # the stop decision is taken on the combined result
     'C17': ('C07', 'C01', 'C09', 'C02.weight_once', 'C02.weight_lazy', 'C02.once'),
     'C19': ('C05',),                                         # resumed-from-text runs
+    # "resumes identically": after rollback(k) the grid / weights handed out are those derived from the last REMAINING result (or the first state)
+    'C15': ('C19.first_vegas', 'C19.first_vegas_grid', 'C19.next_vegas', 'C19.first_mc', 'C19.first_mc_weights', 'C19.next_mc'),
 }
 
 
@@ -417,7 +419,7 @@ JOBS = [
          enforce='rng_chkpt_plain_result_generator', structs=_ST_CHK, preludes=['opaque.h'], defines=['VP_NMAX=1048576'], props=['C15', 'C03']),
     dict(name='vegas_chkpt_pdf', functions=['vegas_chkpt_pdf', 'chkpt_vegas_result_results', 'vegas_result_pdf', 'vegas_result_adjustment_data', 'vegas_refine_pdf'],
          specs=['vegas_chkpt_pdf', 'refine_abs'], entry='h_vegas_chkpt_pdf', enforce='vegas_chkpt_pdf', replace=['vegas_refine_pdf'],
-         structs=_ST_VCHK, preludes=['opaque.h'], globals=_REFGHOST, defines=['VP_NMAX=1048576'], props=['C19', 'C03', 'C07'], stub_bodies=['vegas_refine_pdf']),
+         structs=_ST_VCHK, preludes=['opaque.h'], globals=_REFGHOST, defines=['VP_NMAX=1048576'], props=['C19', 'C03', 'C07', 'C15'], key_props=['C19', 'C03', 'C07'], stub_bodies=['vegas_refine_pdf']),
     dict(name='vegas_pdf_ctor', functions=['vegas_pdf_ctor2'], entry='h_vegas_pdf_ctor2', enforce='vegas_pdf_ctor2', af=['vegas_pdf_ctor2'],
          structs=[dict(cls='vegas_pdf', cls_targs=['double'])], defines=['VP_DIMSMAX=1024', 'VP_BINSMAX=1048576'], props=['C07', 'C19']),   # float: two obligations stay undecided after 50 min - not part of the thorough tier
     dict(name='vegas_chkpt_dimensions', functions=['vegas_chkpt_dimensions', 'chkpt_vegas_result_results', 'vegas_result_pdf', 'vegas_pdf_dimensions', 'vegas_pdf_ctor2'],
@@ -425,7 +427,7 @@ JOBS = [
          structs=_ST_VCHK, preludes=['opaque.h'], defines=['VP_NMAX=1048576', 'VP_DIMSMAX=1024', 'VP_BINSMAX=1048576'], props=['C19', 'C15']),
     dict(name='mc_chkpt_channel_weights', functions=['multi_channel_chkpt_channel_weights', 'chkpt_multi_channel_result_results', 'multi_channel_result_channel_weights', 'multi_channel_result_adjustment_data', 'multi_channel_refine_weights'],
          specs=['multi_channel_chkpt_channel_weights', 'refine_abs'], entry='h_multi_channel_chkpt_channel_weights', enforce='multi_channel_chkpt_channel_weights', replace=['multi_channel_refine_weights'],
-         structs=_ST_MCHK, preludes=['opaque.h'], globals=_REFGHOST, defines=['VP_NMAX=1048576'], props=['C19', 'C03', 'C08'], stub_bodies=['multi_channel_refine_weights']),
+         structs=_ST_MCHK, preludes=['opaque.h'], globals=_REFGHOST, defines=['VP_NMAX=1048576'], props=['C19', 'C03', 'C08', 'C15'], key_props=['C19', 'C03', 'C08'], stub_bodies=['multi_channel_refine_weights']),
     dict(name='mc_chkpt_channels', functions=['multi_channel_chkpt_channels', 'chkpt_multi_channel_result_results', 'multi_channel_result_channel_weights'],
          specs=['multi_channel_chkpt_channels'], entry='h_multi_channel_chkpt_channels', enforce='multi_channel_chkpt_channels',
          structs=_ST_MCHK, preludes=['opaque.h'], defines=['VP_NMAX=1048576'], props=['C19', 'C15', 'C08']),
